@@ -190,7 +190,7 @@ def compare_trace(ctx, spec, m, net, label):
         if first is not None:
             l = first[0]
             sk = kinds[net["src"][l]]
-            stage = ("balance-timed" if net["nrows"][net["src"][l]] > 1 else "balance") if sk in "jr" else ("resolve-timed" if (sk == "t" or kinds[net["dst"][l]] == "t") else "resolve")
+            stage = ("balance-timed" if (len(impl_fl[l]) > 1 or len(mfl[l]) > 1) else "balance") if sk in "jr" else ("resolve-timed" if (sk == "t" or kinds[net["dst"][l]] == "t") else "resolve")
             # junction flows may differ only because upstream flows differ: attribute to the earliest stage that differs
             for l2, (mrow, irow) in enumerate(zip(mfl, impl_fl)):
                 if kinds[net["src"][l2]] not in "jr":
